@@ -67,7 +67,7 @@ NATIVE_UNITS = {
                                 "finding": "template-location"},
     "core_eval_witness": {"file": "src/interpreter/interpreter.rs", "source": "core_eval.rs",
                           "modpath": "interpreter::interpreter", "test": "verif_native_core_eval_witness", "role": "witness",
-                          "for_fns": ["eval_expression", "as_boolean", "read_literal", "eval_primitive"]},
+                          "for_fns": ["eval_expression", "as_boolean", "read_literal", "eval_primitive", "apply_scheme_procedure"]},
     "after_error_witness": {"file": "src/interpreter/interpreter.rs", "source": "vector_builtins.rs",
                             "modpath": "interpreter::interpreter", "test": "verif_native_after_error_witness", "role": "witness", "for_fns": []},
     "tail_arity_panic": {"file": "src/interpreter/interpreter.rs", "source": "tail_arity.rs",
@@ -265,7 +265,7 @@ PROPS = {
         "assumptions": ["library_map registers every builtin body with its own parameter list (axiom_builtin_table)"],
     },
     "C01": {
-        "verus": ["interp_eval_value", "interp_tail_value"], "kani": [], "native": ["core_eval_witness"],
+        "verus": ["interp_eval_value", "interp_tail_value", "interp_apply"], "kani": [], "native": ["core_eval_witness"],
         "level": "proof",
         "explanation": "The control skeleton of the evaluator only. Interpreter::eval_expression is proved, for expressions of any size, against a "
                        "big-step relation over the expression structure (the same relation as in C08 / C15, here with the clauses about WHICH VALUE "
@@ -273,11 +273,16 @@ PROPS = {
                        "then exactly the selected arm, and only #f selects the alternative (Value::as_boolean is proved to be `not #f`); a call evaluates the "
                        "operator, then every operand, passes on the first error, and applies the procedure to exactly the sequence of the operands' values; "
                        "a lambda expression is a closure over the CURRENT frame; a quoted datum / literal is what read_literal / eval_primitive give "
-                       "(their own contracts: unit interp_literal, claimed under C06). Variable lookup, parameter binding and definitions are NOT proved: "
+                       "(their own contracts: unit interp_literal, claimed under C06). Frames (unit interp_apply): Interpreter::apply_scheme_procedure is proved "
+                       "to create ONE fresh frame per call as a child of the frame the procedure was created in (Environment::new_child(closure)) and to define every "
+                       "parameter and internal definition, and evaluate every internal definition's value and every body expression, IN THAT FRAME (a ghost "
+                       "permission that only new_child grants and that define / eval_expression / eval_tail_expression demand), the last body expression in tail "
+                       "position. Variable lookup inside a frame chain and the binding of the fixed parameters are NOT proved: "
                        "for them there is only the witness grid core_eval_witness (70 programs over the core forms with the value R7RS assigns: lexical scope, "
                        "fixed / rest parameters, define sugar, operands evaluated once, internal definitions, higher-order procedures, apply), a test, not a proof.",
         "unverified": ["variable lookup and assignment (LexicalScope::get / set over Rc<RefCell<HashMap<String, Value>>>): no contract -- `innermost binding` is not proved",
-                       "parameter binding, rest lists and internal definitions (apply_scheme_procedure: an FnMut closure over the argument iterator; Environment::new_child / define)",
+                       "the binding of the fixed parameters (an FnMut closure over the argument iterator inside apply_scheme_procedure: replaced by a wrapper with an ASSUMED "
+                       "contract, rule X3c; its text is checked) and what LexicalScope::define / new_child do to a frame (RefCell<HashMap>): only WHICH frame they are used on is proved",
                        "an `if` in tail position (eval_tail_expression / eval_owned_tail_expression): decided under C02 (tail_post), not repeated here",
                        "`every operand evaluated exactly ONCE`: a relation over results cannot count evaluations; the multiplicity rests on the ASSUMED contract of "
                        "slice.iter().map(f).collect() (f applied once per element, in order) and is otherwise only tested by the grid",
